@@ -399,4 +399,38 @@ CONTRACTS = {
             3: dict(inv=[]),
         },
     ),
+
+    # ---------------------------------------------------------------- C10: interaction features
+    'compute_combined_features.length_prefixed': dict(
+        strings='opaque', params={'value': 'str'}, returns='str', pure='lp(value)', unfold=['lp'], requires=[], ensures=[], frame=True),
+    'compute_combined_features.combine_features': dict(
+        strings='opaque',
+        params={'new_combination': 'list[str]',
+                'input_dataframe': {'__class__': 'DataFrame', 'columns': 'list[str]', 'nrows': 'int', 'data': 'FrameData', 'cells': 'const:"str"'},
+                'join_string': 'str'},
+        frame=True,
+        lemma_map={'ensures.faithful': ['lpcat_faithful'], 'inv#1': []},
+        requires=[
+            ('order', 'len(new_combination) >= 1'), ('rows', 'input_dataframe.nrows >= 0'),
+            ('constituents_are_columns', 'all(new_combination[c] in input_dataframe.columns for c in range(len(new_combination)))'),
+        ],
+        ensures=[
+            ('name_joins_the_constituents', 'result[0] == join_string.join(new_combination)'),
+            ('one_value_per_row', 'len(result[1]) == input_dataframe.nrows'),
+            # equal interaction values <=> the rows agree on every constituent feature (up to hash collisions: xxh64 idealised as injective)
+            ('faithful', 'all((result[1][i] == result[1][j]) == '
+                         'all(input_dataframe[new_combination[c]].values[i] == input_dataframe[new_combination[c]].values[j] for c in range(len(new_combination))) '
+                         'for i in range(input_dataframe.nrows) for j in range(input_dataframe.nrows))'),
+        ],
+        asserts={'after:combined_feature = combined_feature.apply': [
+            ('hashed_concatenation', 'len(combined_feature) == input_dataframe.nrows and '
+                                     'all(combined_feature[i] == xxh64hex(lpcat(input_dataframe, new_combination, i, 0)) for i in range(input_dataframe.nrows))'),
+        ]},
+        loops={1: dict(index='t', inv=[
+            ('rows', 'len(combined_feature) == input_dataframe.nrows'), ('owned', 'owned(combined_feature)'),
+            ('prefix', 'all(combined_feature[i] + lpcat(input_dataframe, new_combination, i, t + 1) == lpcat(input_dataframe, new_combination, i, 0) '
+                       'for i in range(input_dataframe.nrows))'),
+        ])},
+        unfold=['lp', 'lpcat'], unfold_map={'ensures.': []},
+    ),
 }
